@@ -23,7 +23,7 @@ import (
 func init() { Register("C06", genC06) }
 
 var c06Watched = []string{"deleted", "oldNewDocNums", "newSegmentDeleted", "running", "offsets", "DocNumbersLive", "LiveSize",
-	".old", "skipped", "mergedSegmentIDs", "wasMerged", "sbsIndexes", "newDocNums", "segmentsToMerge", "docsToDrop", "oldMap"}
+	".old", "skipped", "obsoletes", "DocsMatchingTerms", "mergedSegmentIDs", "wasMerged", "sbsIndexes", "newDocNums", "segmentsToMerge", "docsToDrop", "oldMap"}
 
 var c06Funcs = []string{
 	"segmentMerge.ProcessSegmentNow",
@@ -102,7 +102,11 @@ func genC06(c *Ctx) {
 					}
 				}
 			case *ast.IfStmt:
-				if s := idx.Src(x.Cond); c06Mentions(s) {
+				s := idx.Src(x.Cond)
+				// introduceSegment: the fallback lookup for a segment the optimistic obsoletes do not cover must be
+				// guarded by exactly `!ok` (merge products are persisted segments with fresh ids)
+				okGuard := short == "introduceSegment" && (s == "ok" || strings.Contains(s, "!ok") || strings.Contains(s, "ok &&") || strings.Contains(s, "ok ||"))
+				if c06Mentions(s) || okGuard {
 					items = append(items, item{x.Pos(), "if " + s})
 				}
 			case *ast.RangeStmt:
